@@ -749,7 +749,16 @@ macro_rules! with_iter {
                 let rep = $item.repeated();
                 // `lead`: contradictory static bounds that the configuration must replace, not intersect with
                 let rep = if g.p.lead { rep.at_least(3).at_most(1) } else { rep };
-                let $it = rep.configure(|cfg, ctx: &Val| cfg.exactly(ctx.flat_string().chars().count()));
+                // `trail`: the context gives a range (at_least(n/2).at_most(n)) instead of an exact count
+                let ranged = g.p.trail;
+                let $it = rep.configure(move |cfg, ctx: &Val| {
+                    let n = ctx.flat_string().chars().count();
+                    if ranged {
+                        cfg.at_least(n / 2).at_most(n)
+                    } else {
+                        cfg.exactly(n)
+                    }
+                });
                 $body
             }
             Op::CtxRep => {
